@@ -47,7 +47,7 @@ def on_line3(M, x, tol=1e-8):
 
 
 def enum_2d(tier, seed):
-    for h in lattice(3, 2):
+    for h in lattice(3, 3 if tier == "thorough" else 2):
         if any(h[:2]):
             yield h
 
@@ -142,7 +142,7 @@ def case_2d(ctx, cfg):
 
 
 def enum_plane(tier, seed):
-    for h in lattice(4, 1):
+    for h in lattice(4, 2 if tier == "thorough" else 1):
         if any(h[:3]):
             yield h
 
@@ -220,7 +220,7 @@ def case_plane(ctx, cfg):
 
 
 def enum_line3(tier, seed):
-    dirs = [v for v in lattice(3, 1) if next(x for x in v if x) > 0]
+    dirs = [v for v in lattice(3, 2 if tier == "thorough" else 1) if next(x for x in v if x) > 0]
     bases = [(0, 0, 0), (1, 0, -1), (-1, 1, 1)] if tier == "quick" else aff(3, 1)
     for u in bases:
         for w in dirs:
@@ -629,11 +629,12 @@ def case_bis(ctx, cfg):
 
 
 def enum_props(tier, seed):
-    for h in lattice(3, 2):
+    deep = tier == "thorough"
+    for h in lattice(3, 3 if deep else 2):
         yield ("line2d", h)
-    for h in lattice(4, 1):
+    for h in lattice(4, 2 if deep else 1):
         yield ("plane", h)
-    dirs = [v for v in lattice(3, 1) if next(x for x in v if x) > 0]
+    dirs = [v for v in lattice(3, 2 if deep else 1) if next(x for x in v if x) > 0]
     for u in aff(3, 1)[:: (1 if tier == "thorough" else 4)]:
         for w in dirs:
             yield ("line3d", (u, w))
